@@ -577,8 +577,9 @@ def _stable_split(cases, run_model_fn, is_stop):
     raise Infra("panic splitting did not converge")
 
 
-def compare_seq(cases, debug=False, profile="release"):
-    """model vs implementation on sequences; returns (n_items, mismatches)."""
+def compare_seq(cases, debug=False, profile="release", stats=None):
+    """model vs implementation on sequences; returns (n_items, mismatches).  stats (dict) accumulates the
+    histogram of message classes of the implementation (0 = valid) and the set of distinct rejected items."""
     cases, mo = _stable_split(cases, lambda cs: model_seq(cs, debug), lambda m: m[0] in ("panic", "fuel"))
     io = impl_seq(cases, profile=profile)
     mism, n = [], 0
@@ -591,6 +592,13 @@ def compare_seq(cases, debug=False, profile="release"):
         elif m != i:
             k = next((j for j in range(len(case)) if j >= len(i) or m[j] != i[j]), None)
             mism.append({"kind": "seq", "case": case, "at": k, "model": m, "impl": i})
+        if stats is not None and not isinstance(i, tuple):
+            h = stats.setdefault("msgclass", {})
+            for it, v in zip(case, i):
+                c = v[1] if v[0] == "err" else 0
+                h[c] = h.get(c, 0) + 1
+                if c:
+                    stats["rejected"] = stats.get("rejected", 0) + 1
     return n, mism
 
 
@@ -711,8 +719,10 @@ def compare_all(tier="quick", seed=1):
 
     # ---- (1) validate_pattern: verdict and message class, both modes, many patterns on one validator
     items = [(p, u) for p in allp for u in (False, True)]
-    n, m = compare_seq(_chunks(items, 64))
+    stats = {}
+    n, m = compare_seq(_chunks(items, 64), stats=stats)
     counts["seq_items"] = n; mism += m
+    counts["seq_rejected_items"] = stats.get("rejected", 0)
     log("[regex] seq: %d items, %d mismatches, %.1fs" % (n, len(m), time.time() - t0))
 
     # ---- (2) the rule: RegExp("..", "..") calls in files
@@ -763,6 +773,9 @@ def compare_all(tier="quick", seed=1):
         "tier": tier, "seed": seed, "counts": counts, "mismatches": mism, "history": hist, "dirty": dirty_bad,
         "v8_classes": {c: {"n": len(w), "witness": min(w, key=lambda x: (len(x["pattern"]), x["pattern"]))} for c, w in classes.items()},
         "v8_unclassified": unknown, "wall_s": round(time.time() - t0, 1),
+        "v8_witnesses": {c: sorted(w, key=lambda x: (len(x["pattern"]), x["pattern"], x["flags"] or ""))[:3] for c, w in classes.items()},
+        "msgclass_histogram": {str(k): v for k, v in sorted(stats.get("msgclass", {}).items())},
+        "samples": [{"pattern": p, "flags": f, "impl_reports": d} for (p, f), d in flat[1000:1003]],
     }
     return res
 
@@ -771,7 +784,7 @@ if __name__ == "__main__":
     tier = sys.argv[1] if len(sys.argv) > 1 else "quick"
     seed = int(sys.argv[2]) if len(sys.argv) > 2 else 1
     r = compare_all(tier, seed)
-    print(json.dumps({k: v for k, v in r.items() if k not in ("mismatches", "v8_unclassified", "history", "dirty")},
+    print(json.dumps({k: v for k, v in r.items() if k not in ("mismatches", "v8_unclassified", "history", "dirty", "v8_witnesses")},
                      indent=1, ensure_ascii=False))
     for key in ("mismatches", "history", "dirty", "v8_unclassified"):
         print("%s: %d" % (key, len(r[key])))
